@@ -165,7 +165,13 @@ fn diff_plain(plain: &Document, d: &Document) -> Option<String> {
     if d.trailer.has(b"Encrypt") {
         return Some("trailer still has /Encrypt".into());
     }
-    cmp::diff_objects(&plain.objects, &d.objects)
+    let m = cmp::diff_objects(&plain.objects, &d.objects)?;
+    // deep documents: say at which nesting depth the first string differs (the path alone is hard to read)
+    let depth = plain.objects.iter().filter_map(|(id, p)| d.objects.get(id).and_then(|o| menu::first_differing_string_depth(p, o))).min();
+    match depth {
+        Some(k) if k > 24 => Some(format!("the shallowest differing string is enclosed by {} arrays/dictionaries: {}", k, vharness::run::truncate(&m, 100))),
+        _ => Some(m),
+    }
 }
 
 // ---------------------------------------------------------------------------------------------
@@ -592,7 +598,9 @@ fn b_eval(c: &Case, v: BVariant, k: Option<&Counters>, only: Option<&[&'static s
             Err(e) => Some(e.clone()),
         };
         let mut intrinsic = None;
-        if problem.is_some() && r <= 4 && rc::pad32(&b.op) != rc::pad32(&b.up) && owner_auth_ok {
+        // (only when decrypt(user) itself restores the plaintext: otherwise something else is wrong)
+        let user_fine = matches!(&as_user, Ok(d) if diff_plain(&b.plain, d).is_none());
+        if problem.is_some() && r <= 4 && rc::pad32(&b.op) != rc::pad32(&b.up) && owner_auth_ok && user_fine {
             // finding (i): lopdf authenticates it as owner, and offering the user password that Algorithm 7
             // recovers from O gives exactly what decrypt(user) gives
             if let (Some((_, recovered)), Ok(du)) = (rc::alg7_owner(&b.enc, &b.id0, &b.op), &as_user) {
